@@ -29,6 +29,7 @@ fn run_check(id: &str, tier: Tier) -> Option<Report> {
         "C10" => checks::c10::run(tier),
         "C11" => checks::c11::run(tier),
         "C12" => checks::c12::run(tier),
+        "C13" => checks::c13::run(tier),
         "C17" => checks::c17::run(tier),
         _ => return None,
     })
@@ -46,6 +47,7 @@ fn replay_case(id: &str, case: &Value) -> Option<Vec<Failure>> {
         "C10" => checks::c10::replay(case),
         "C11" => checks::c11::replay(case),
         "C12" => checks::c12::replay(case),
+        "C13" => checks::c13::replay(case),
         "C17" => checks::c17::replay(case),
         _ => return None,
     })
